@@ -8,3 +8,24 @@ add("C01", "exploration",
     "runtime monitor: encode/decode round-trip oracle over generated well-formed packets (class cross product + seeded fill), recover()-guarded",
     "Held on the generated Packet/Header values (60k quick / 6M thorough, every class combination of CSRC x extension kind x payload x padding); says nothing about values the generator does not produce.",
     "Trusts the harness generator/bridge (public API only) and its equality convention (nil == empty; ExtensionProfile ignored without X).")
+
+add("C02", "exploration",
+    "runtime monitor: recover() guard + structural invariants of accepted parses + fresh-vs-reused receiver twin over hostile byte-string streams (exhaustive <=2 bytes, alphabet walk, mutants)",
+    "Held on every byte string fed (all strings <=2 bytes and the extension-region alphabet walk exhaustively; ~400k quick / 40M thorough generated strings in streams through persistent receivers).",
+    "Non-termination is only detectable through the process watchdog + pinboard; inputs are generated, not enumerated beyond the exhaustive strata.")
+add("C03", "exploration",
+    "runtime monitor: differential against an independent RFC 3550/8285 reference encoder/decoder (grammar images incl. non-canonical layouts), re-encode stability oracle on accepted mutants, block-view oracle",
+    "Held on the grammar images generated (100k quick / 8M thorough) and on every accepted mutant; one open known finding (id-15 terminator, pinned by an existing test).",
+    "Trusts the reference encoder/decoder pair (cross-checked against each other on every case).")
+add("C04", "exploration",
+    "runtime monitor: MarshalTo judged against Marshal() on dirty destination buffers of every length 0..size+8, recover()-guarded",
+    "Held on all generated packets/headers x every destination length x four prior contents (1.3M calls quick).",
+    "Marshal() is the byte reference; nothing is demanded of dst after a failed call.")
+add("C05", "exploration",
+    "runtime monitor: shadow ordered-map model following returned errors + wire clause; all op sequences of length <=2 over the class alphabet exhaustively, random longer ones",
+    "Held on every sequence of <=2 operations over the boundary alphabet x 11 start states and on 120k/12M random sequences.",
+    "The model never predicts failures, it follows returned errors; ids/lengths outside the class alphabet are sampled.")
+add("C20", "exploration",
+    "runtime monitor: twin (mutate one side, watch the other's snapshot) + address-range overlap monitor over full slice capacity",
+    "Held on 30k/3M generated packets and headers under 12 mutation kinds in both directions.",
+    "Extension values are reached through GetExtension only; snapshots are fields + Marshal bytes.")
